@@ -109,14 +109,15 @@ Definition one_net (n : gnode) : bool :=
 Definition nets_ok (g : pgraph) : bool := forallb one_net g.
 
 (* ---- clones: a source is cloned once per producer of the multi-producer dependency, the
-        branches use different states, and a source has no dependants of its own ---- *)
+        branches use different states, and a source keeps no runnable dependants ---- *)
 Definition clone_states (g : pgraph) (c : nat) : list N :=
   flat_map (fun o => match go_get o with Some s => [s] | None => [] end) (gn_objs (gnd g c)).
 Definition clones_ok (g : pgraph) : bool :=
   forallb (fun i => let n := gnd g i in
      match gn_clones n with
      | [] => true
-     | cl => match gn_children n with [] => true | _ => false end &&
+     | cl => (* the only dependants a source keeps are sources themselves (the real dependants hang under the clones) *)
+             forallb (fun e => match gn_clones (gnd g (fst e)) with [] => false | _ => true end) (gn_children n) &&
              forallb (fun c => c <? length g) cl &&
              nodupN (map (fun c => gn_name (gnd g c)) cl) &&
              (* pairwise different sets of required states *)
